@@ -101,6 +101,69 @@ def run_pre(kind: str, is_async: bool, mode: str, n0: int, d1: int, n1: int, sur
     return ok, witness
 
 
+_SHARED_PRE = {}  # type: Dict[Any, Any]
+
+
+def run_shared_predicate_pre(shape: int, own: bool, tp: bool, ta: bool, tb: bool, tc: bool) -> Tuple[bool, bool]:
+    """One predicate function p is a conjunct of the precondition groups of two classes which a third class inherits both:
+    shape 0 - Base(p, a) <- Child(p, b) <- GrandChild; shape 1 - Left(p, a), Right(p, b) <- Both.  The third class overrides
+    the method with / without an own group (c).  Effective precondition: (p and a) or (p and b) [or c]."""
+    import icontract
+    from vfw.hlib import untraced
+    shape = conc(shape, 0, 1)
+    own = True if own else False
+    with untraced():
+        w = _SHARED_PRE.get((shape, own))
+        if w is None:
+            w = {"truth": {}, "log": []}
+            hw = w
+
+            def cond(name: str) -> Any:
+                def c(x: Any) -> Any:
+                    hw["log"].append(name)
+                    return hw["truth"][name]
+                c.__name__ = name
+                return c
+            p = cond("p")
+
+            def method(groups: List[str], label: str) -> Any:
+                def m(self: Any, x: Any) -> Any:
+                    hw["log"].append("body")
+                    return label
+                f = m
+                for g in groups:
+                    f = icontract.require(p if g == "p" else cond(g), error=(lambda g=g: Tag(g)))(f)
+                return f
+            if shape == 0:
+                base = icontract.DBCMeta("Base", (icontract.DBC,), {"m": method(["a", "p"], "base")})
+                child = icontract.DBCMeta("Child", (base,), {"m": method(["b", "p"], "child")})
+                third = icontract.DBCMeta("GrandChild", (child,), {"m": method(["c"] if own else [], "third")})
+            else:
+                left = icontract.DBCMeta("Left", (icontract.DBC,), {"m": method(["a", "p"], "left")})
+                right = icontract.DBCMeta("Right", (icontract.DBC,), {"m": method(["b", "p"], "right")})
+                third = icontract.DBCMeta("Both", (left, right), {"m": method(["c"] if own else [], "third")})
+            w["inst"] = third()
+            _SHARED_PRE[(shape, own)] = w
+    w["truth"] = {"p": tp, "a": ta, "b": tb, "c": tc}
+    del w["log"][:]
+    try:
+        res = fresh(w["inst"].m, 1)
+        raised = None
+    except Tag as err:
+        res = None
+        raised = err
+    holds = (tp and ta) or (tp and tb) or (own and tc)
+    entered = "body" in w["log"]
+    ok = entered == (True if holds else False)
+    if holds:
+        ok = ok and raised is None and res == "third"
+    else:
+        # the error of a violated condition of the last group tried
+        ok = ok and raised is not None and not w["truth"][raised.label]
+    note(("shared_predicate_pre", shape, own, entered), not holds)
+    return ok, not holds
+
+
 ALL = ["n0", "d1", "n1", "surround", "r", "t0", "t1", "t2", "t3", "t4", "x", "thr", "amode"]
 
 
@@ -111,6 +174,12 @@ def _mk(kind: str, is_async: bool, mode: str, params: List[Any]):  # type: ignor
 
 def harnesses(tier: str) -> List[H]:
     out = []  # type: List[H]
+    SP = ["shape", "own", "tp", "ta", "tb", "tc"]
+    out.append(H("shared_predicate_pre", bind(run_shared_predicate_pre, (), SP, {}, SP),
+                 [I("shape", 0, 1), B("own"), B("tp"), B("ta"), B("tb"), B("tc")], tiers=(tier,), timeout=200,
+                 family="the same predicate function is a conjunct of two inherited precondition groups (chain Base <- Child <- "
+                        "GrandChild, or two bases Left, Right <- Both), each group with a further condition; the third class "
+                        "overrides the method with / without an own group", family_size=4))
     truth3 = [B("t0"), B("t1"), B("t2")]
     for kind in ALL_KINDS:
         for is_async in (False, True):
